@@ -38,6 +38,12 @@ theorem read_terminates (opts : List SOpt) (hok : OptsOk opts) (prog : Buf) (ws 
     readAll (opts.map toModel) (size ws + 1) (St.init (prog :: ws.map term)) ≠ .fuel := by
   rw [read_sequence_eq_getopt opts hok prog ws hws _ (Nat.lt_succ_self _)]; simp
 
+/-- `argc == 0` (no `argv[0]`; the constructor's `++argv` steps behind `argvEnd`): for every option table the first
+    `read` returns false without touching a string -- the sequence is empty, as `getopt` of no words -/
+theorem read_argc_zero (opts : List Opt) (fuel : Nat) :
+    readAll opts (fuel + 1) (St.init []) = .ok (getopt [] []) ∧ read opts (St.init []) = some (none, St.init []) := by
+  constructor <;> simp [readAll, read, nextChar, St.init, St.peek, St.buf, getopt, parse]
+
 /-- every single call from a state reached between two reads (`Rel`) stays inside the strings,
     consumes at least one character or word, and continues the specified sequence -/
 theorem read_step_refines (opts : List SOpt) (hok : OptsOk opts) {argv : List Buf} {st : St} {pending : List Nat}
